@@ -29,7 +29,7 @@ from .. import q
 from ..model import AnalysisError
 from ..rules import call_sites
 from ..mutate import mutate, remove_stmts, replace_expr, replace_stmt, parse_stmt, parse_expr
-from ..x_http import norm_func, atom_edges, reach_without, resolve_call, single_bindings, node_mentions, self_modsets
+from ..x_http import norm_func, argx, mk_evaluator, module_consts, atom_edges, reach_without, resolve_call, single_bindings, node_mentions, self_modsets
 from ..x_absint import Evaluator, HeaderMap, Obj, UNK
 
 TECHNIQUE = "exhaustive finite-domain abstract interpretation of the keep-alive decision, header emission and close functions + guard dominance on the CFG"
@@ -97,6 +97,8 @@ def _evaluator(ck, root, **kw):
     if ms is None:
         ms = ck._c03_modsets = self_modsets(ck.repo, H1, "HTTP1Connection")
     ev = Evaluator(modset=lambda d: ms.get(d.split(".")[1]), **kw)
+    ev.globals = module_consts(ck.repo.module(H1))
+    ev.signatures["is_transfer_encoding_chunked"] = ["headers"]
     skip = {root, "close", "_clear_callbacks", "_finish_request", "_format_chunk", "_on_write_complete", "_can_keep_alive", "write_headers", "finish", "_read_message"}
 
     def inline(d):
@@ -197,12 +199,12 @@ def check_read_message(ck):
     # arguments: the parsed start line and headers of this message
     dele_args = None
     for node, c in hdrs:
-        dele_args = [q.dotted(a) for a in c.args]
+        dele_args = [q.dotted(q.arg(c, 0, "start_line")), q.dotted(q.arg(c, 1, "headers"))]
     for nid in good:
         v = cfg.nodes[nid].ast.value.operand
         if isinstance(v, ast.Name):
             v = binds[v.id]
-        names = [q.dotted(a) for a in v.args]
+        names = [q.dotted(argx(repo, fi, v, 0, "start_line")), q.dotted(argx(repo, fi, v, 1, "headers"))]
         hdr_var = names[1] if len(names) > 1 else None
         ok = len(names) == 2 and dele_args is not None and len(dele_args) == 2 and hdr_var == dele_args[1]
         # the start line passed is the one bound from parse_request_start_line
@@ -259,7 +261,10 @@ def check_per_request_state(ck):
     ck.floor(R, len(ctor), 1, "HTTP1Connection constructions in the serving loop")
     for c in ctor:
         ck.ob(R, lp, c, any(isinstance(a, ast.While) for a in q.ancestors(pm, c)), "persistence state is per request: a fresh HTTP1Connection for every request of the connection")
-        ck.ob(R, lp, c, len(c.args) >= 2 and q.is_const(c.args[1], False), "the serving loop creates server-mode connections")
+        ic = argx(ck.repo, lp, c, 1, "is_client")
+        if ic is None or not isinstance(ic, ast.Constant):
+            raise AnalysisError("_server_request_loop: is_client argument of HTTP1Connection(...) not decidable (%s)" % q.unparse(c)[:80])
+        ck.ob(R, lp, c, q.is_const(ic, False), "the serving loop creates server-mode connections")
     # nobody but the anchored mechanisms (and private helpers reachable only from them) writes the flag
     allowed = {"__init__", "_read_message", "finish", "write_headers"}
     methods = {f.name: f for f in ck.repo.direct_methods(H1, "HTTP1Connection")}
@@ -292,13 +297,17 @@ def check_finish(ck):
     R = "C03.finish-early-close"
     fi = _F(ck, H1, "HTTP1Connection.finish")
     seen = {"calls": 0}
+    nested_cb = {st.name for st in ast.walk(fi.node) if isinstance(st, (ast.FunctionDef, ast.AsyncFunctionDef)) and st is not fi.node and any(isinstance(x, ast.Attribute) and q.dotted(x) == "self._finish_request" for x in ast.walk(st))}
+    nested_cb |= {t.id for st in ast.walk(fi.node) if isinstance(st, ast.Assign) and isinstance(st.value, (ast.Lambda, ast.Call)) and any(isinstance(x, ast.Attribute) and q.dotted(x) == "self._finish_request" for x in ast.walk(st.value)) for t in st.targets if isinstance(t, ast.Name)}
     modset = _modset(ck)
 
     for read_finished, disc0, chunking, pending in itertools.product((False, True), (False, True), (False, True), (None, "future")):
         records = []
 
         def on_call(st, c, d, args, records=records):
-            hit = d == "self._finish_request" or any(q.dotted(a) == "self._finish_request" for a in c.args)
+            # called directly, or handed over as a callback: bound method, lambda, functools.partial, nested def
+            mentions = lambda e: any(isinstance(x, ast.Attribute) and q.dotted(x) == "self._finish_request" for x in ast.walk(e))
+            hit = d == "self._finish_request" or any(mentions(a) or (isinstance(a, ast.Name) and a.id in nested_cb) for a in list(c.args) + [k.value for k in c.keywords])
             if hit:
                 me = st.env["self"]
                 records.append((me.attrs.get("_disconnect_on_finish", UNK), c))
@@ -313,6 +322,8 @@ def check_finish(ck):
         want = True if not read_finished else disc0
         seen["calls"] += len(records)
         bad = [r for r in records if r[0] is not want]
+        if not records and any(isinstance(x, ast.Attribute) and x.attr == "_finish_request" for x in ast.walk(fi.node)):
+            raise AnalysisError("finish(): _finish_request is invoked or scheduled in a form the rule does not recognise")
         ck.ob(R, fi, bad[0][1] if bad else fi.node, not bad and bool(records),
               "when _finish_request runs/is scheduled, _disconnect_on_finish is %s (request body read completely: %s, flag before: %s)" % (want, read_finished, disc0),
               construct="finish: read_finished=%s flag_before=%s -> flag at _finish_request" % (read_finished, disc0))
